@@ -236,21 +236,24 @@ def e1_e2_pop(F, R, M, pop_id, lfield):
                 'the Ok path is not guarded by (used.ring[slot].id == token)')
         # slot index
         slot_terms = set()
-        for x in subterms(okv):
-            if x[0] == 'load0' and M.loc_area(x[1]):
-                for pp in x[1][2]:
-                    if pp[0] == 'idx':
-                        slot_terms.add(pp[1])
-        good_slot = False
+        for src_t in [okv] + [c[0] for c in p.conds]:
+            for x in subterms(src_t):
+                if x[0] in ('load0', 'load') and (M.loc_area(x[1]) or '').startswith('used.ring'):
+                    for pp in x[1][2]:
+                        if pp[0] == 'idx':
+                            slot_terms.add(pp[1])
+        good_slot = bool(slot_terms)
         for stt in slot_terms:
+            this_ok = False
             t = strip_conv(stt)
             if t[0] == 'bin' and t[1] == 'BitAnd':
                 a, b_ = strip_conv(t[2]), strip_conv(t[3])
                 ctr_, mask = (a, b_) if a[0] == 'load0' else (b_, a)
                 if ctr_[0] == 'load0' and ctr_[1][2][-1][1] == lfield and mask[0] == 'bin' and mask[1] == 'Sub' and fold_const(mask[3]) == 1 and 'SIZE' in fmt(mask[2]):
-                    good_slot = True
-        R.check(good_slot, 'E2', inst + ':slot', where, 'slot = last_used & (SIZE-1), pre-increment',
-                'used-ring slot is not (pre-increment last-used index) & (SIZE-1): %s' % [fmt(s) for s in slot_terms])
+                    this_ok = True
+            good_slot = good_slot and this_ok
+        R.check(good_slot, 'E2', inst + ':slot', where, 'every used-ring element read (id and len) uses slot = last_used & (SIZE-1), pre-increment',
+                'a used-ring element is read at a slot other than (pre-increment last-used index) & (SIZE-1): %s' % sorted(fmt(s) for s in slot_terms))
         # order: release (local loop-containing callee reaching Hal::unshare) before the last_used store; store value
         seq = []
         for e in p.effects:
